@@ -1,6 +1,7 @@
 package checks
 
 import (
+	"crypto/tls"
 	"context"
 	"errors"
 	"fmt"
@@ -36,6 +37,7 @@ type SrvScenario struct {
 	Locks     bool       `json:"locks,omitempty"`      // Lock() calls are scheduling points
 	Listeners int        `json:"listeners,omitempty"`  // 2: a second listener on the same server
 	Plan      string     `json:"plan,omitempty"`       // backend behaviour: "" read all & accept | "noread" never reads (returns when the reader fails) | "statuses" | "earlyreturn" (LMTP: statuses, then return without reading)
+	ImplicitTLS bool     `json:"implicit_tls,omitempty"` // the listener hands out TLS connections whose handshake is still to come
 	Chunked   bool       `json:"chunked,omitempty"`    // every transfer of the scenario is chunked (BDAT)
 	ByContent bool       `json:"by_content,omitempty"` // the message's first line decides the verdict (accept…/reject…)
 	MaxBytes  int64      `json:"max_bytes,omitempty"`
@@ -143,6 +145,11 @@ func c20Plan(sc SrvScenario) func(int) h.DataPlan {
 	case "panic-when-done":
 		// reads until the reader ends - with the end of the message or with the error of an aborted transfer -, then panics
 		return func(int) h.DataPlan { return h.DataPlan{Max: -1, Panic: true, KeepErr: true} }
+	case "status-for-first-occurrence-only":
+		// the same mailbox twice; the backend reports the first occurrence itself and leaves the second to its return value
+		return func(int) h.DataPlan {
+			return h.DataPlan{Max: -1, Verdict: h.RejErr("message"), Status: []h.StatusCall{{Rcpt: "ok1@b.example", Err: nil}}}
+		}
 	case "panic-first-when-done":
 		// the same for the first delivery only; later messages are read and accepted
 		return func(idx int) h.DataPlan {
@@ -224,7 +231,12 @@ func (w *srvWorld) Events() []h.SchedEvent {
 				c := &connCtl{}
 				c.client, c.server = h.NewDuplex()
 				w.conns = append(w.conns, c)
-				w.ln.ch <- net.Conn(c.server)
+				if sc.ImplicitTLS {
+					// a TLS listener (ListenAndServeTLS): the connection handler performs the handshake first
+					w.ln.ch <- net.Conn(tls.Server(c.server, h.ServerTLSConfig()))
+				} else {
+					w.ln.ch <- net.Conn(c.server)
+				}
 			case "temp":
 				w.ln.ch <- error(tempErr{})
 			case "perm":
@@ -542,6 +554,16 @@ func c20Scenarios(tier string) []SrvScenario {
 		out = append(out, SrvScenario{Name: "F2-lmtp-disconnect-inside-a-DATA-message-" + plan, LMTP: true, Accepts: []string{"conn"}, Clients: [][]string{{lm, "DATA\r\n", "half a mess", "<EOF>"}}, Gates: []string{"return"}, Plan: plan})
 	}
 	out = append(out, SrvScenario{Name: "F1-disconnect-inside-a-chunk-nobody-closes", Accepts: []string{"conn"}, Clients: [][]string{{chunk, "BDAT 10 LAST\r\nabc", "<EOF>"}}, Gates: []string{"read", "return"}, Chunked: true})
+	// a TLS listener and a peer that connects and never says anything (no ClientHello): Close / Shutdown + cancel end it
+	out = append(out, SrvScenario{Name: "F3-implicit-tls-silent-peer-close", ImplicitTLS: true, Accepts: []string{"conn"}, Clients: [][]string{{}}, Admin: []string{"close"}})
+	out = append(out, SrvScenario{Name: "F3-implicit-tls-silent-peer-then-disconnect", ImplicitTLS: true, Accepts: []string{"conn"}, Clients: [][]string{{"<EOF>"}}, Admin: []string{"close"}})
+	out = append(out, SrvScenario{Name: "F3-implicit-tls-two-silent-peers-shutdown-close", ImplicitTLS: true, Accepts: []string{"conn", "conn"}, Clients: [][]string{{}, {"<EOF>"}}, Admin: []string{"shutdown", "close2"}})
+	// LMTP, the same mailbox twice, one status set by the backend and one left to its return value
+	for _, tail := range [][]string{{"BDAT 4 LAST\r\nmsg\n", "QUIT\r\n"}, {"DATA\r\n", "msg\r\n.\r\n", "QUIT\r\n"}, {"DATA\r\n", "msg\r\n.\r\n", "<EOF>"}} {
+		for _, admin := range [][]string{{"close"}, nil} {
+			out = append(out, SrvScenario{Name: fmt.Sprintf("F2-lmtp-duplicate-rcpt-one-status-%s%d-%d", strings.Fields(tail[0])[0], len(tail), len(admin)), LMTP: true, Accepts: []string{"conn"}, Clients: [][]string{append([]string{lmDup}, tail...)}, Admin: admin, Gates: []string{"status", "return"}, Plan: "status-for-first-occurrence-only", Chunked: tail[0][0] == 'B'})
+		}
+	}
 	// a backend whose Logout returns an error: the connection is closed all the same
 	out = append(out, SrvScenario{Name: "F3-logout-returns-an-error-close", LogoutErr: true, Accepts: []string{"conn"}, Clients: [][]string{{"EHLO c.example\r\n", "NOOP\r\n"}}, Admin: []string{"close"}})
 	out = append(out, SrvScenario{Name: "F3-logout-returns-an-error-quit-shutdown", LogoutErr: true, Accepts: []string{"conn"}, Clients: [][]string{{"EHLO c.example\r\n", "QUIT\r\n"}}, Admin: []string{"shutdown"}})
